@@ -222,10 +222,7 @@ class C15(PropertyCheck):
     ]
     level_note = ("EC counts, table/complex identity, box EC, invariances, Gram/volume identities, Hermite recursion are "
                   "proved for all inputs of the model; mu1/mu2 box values and EC densities of order >= 1 are numeric")
-    finding_keys = {
-        "EC2d-origin-triangle": "EC2d skips every triangle whose first vertex has flat index 0 (`if m and v0:`): "
-                                "masks with mask[0,0] set and an origin triangle present are off by the number of such triangles",
-    }
+    finding_keys = {}
 
     # ---- tie (a): regenerate the maximal simplices from utils.py -------------
     def translators(self):
@@ -561,7 +558,7 @@ class C15(PropertyCheck):
             if isinstance(v5, str) or any(abs(float(x) - y) > tol for x, y in zip(list(v5), val + [0.0])):
                 fail = f"{g} of the mask embedded as a thin slab (axis {ax}) = {v5}, but {f} = {val}"
         ec = self._call(getattr(iv, f.replace("Lips", "EC")), mask)
-        if fail is None and not (mask.ndim == 2 and mask.flat[0]) and ec != val[0]:
+        if fail is None and ec != val[0]:
             fail = f"{f}[0] = {val[0]} but {f.replace('Lips', 'EC')} = {ec}"
         return {"lines": lines, "impl": impl, "oracle": fail, "nontrivial": mask.sum() >= 2,
                 "tags": tags, "mutated": mut}
@@ -783,14 +780,6 @@ class C15(PropertyCheck):
                         yield c
 
     def classify(self, case, failure):
-        if case.get("kind") == "ec" and len(case["shape"]) == 2 and set(case["bits"]) <= {"0", "1"}:
-            m = _mask_of(case)
-            if m.size and m[0, 0] and "EC2d(mask)" in failure and "Euler characteristic" in failure:
-                # exactly the documented defect: off by the number of origin triangles present, nothing else
-                iv, _ = self._iv()
-                n0 = sum(1 for s in complex_of(m) if len(s) == 3 and s[0] == (0, 0))
-                if n0 > 0 and iv.EC2d(m) + n0 == reference_ec(m):
-                    return "EC2d-origin-triangle"
         return None
 
 
